@@ -112,6 +112,7 @@ type Exec struct {
 	obs         []obsRec
 	poolMode    int
 	oracleArg   map[string]Value
+	oracleArgs  map[string][]Value // every value recorded under a name (e.g. keys of successful RSA verifications)
 	replacers   map[*Value][][2]*StrV
 	digests     map[string][]Value
 	oracle      map[string]int
